@@ -157,7 +157,7 @@ func TestVfWiring(t *testing.T) {
 		}
 		time.Sleep(50 * time.Millisecond)
 		announce := fmt.Sprintf("%s:5062", g.ip("10.0.2.1"))
-		rports := []string{"", ";rport", ";rport=9;received=1.2.3.4"}
+		rports := []string{"", ";rport", ";rport=9;received=1.2.3.4", ";received=1.2.3.4;rport"}
 
 		// (a) the configured UDP listener
 		w.reset(fmt.Sprintf("wiring%d-udp-%v", ci, recv), recv, udp, tcp)
